@@ -118,3 +118,28 @@ pub fn run(lines: &[String]) {
         }
     }
 }
+
+pub fn run_resp(lines: &[String]) {
+    use rdest::TrackerResp;
+    for line in lines {
+        let mut t = line.split_whitespace();
+        match t.next() {
+            Some("resp") => {
+                let body = unhex(t.next().unwrap());
+                let r = guarded(|| TrackerResp::from_bencode(&body).map(|r| r.peers()));
+                println!(
+                    "{}",
+                    match r {
+                        None => "PANIC".to_string(),
+                        Some(Err(_)) => "ERR".to_string(),
+                        Some(Ok(ps)) => {
+                            let v: Vec<String> = ps.iter().map(|(a, id)| format!("{}/{}", hex(a.as_bytes()), hex(id))).collect();
+                            format!("OK {}", if v.is_empty() { "-".to_string() } else { v.join(",") })
+                        }
+                    }
+                )
+            }
+            _ => panic!("bad case"),
+        }
+    }
+}
